@@ -5,6 +5,7 @@
 #define HFSM2_ENABLE_UTILITY_THEORY
 #define HFSM2_ENABLE_PLANS
 #define HFSM2_ENABLE_TRANSITION_HISTORY
+#define HFSM2_ENABLE_STRUCTURE_REPORT
 #include <hfsm2/machine.hpp>
 #include <cstdio>
 #include <cstdlib>
@@ -35,6 +36,12 @@ struct Fix {
 		int code = 0;
 		for (int s = 1; s < (int)FSM::STATE_COUNT; ++s) if (m.isActive((hfsm2::StateID)s)) code = code * 16 + s;
 		return code;
+	}
+	// what a user prints from structure(): prefix and name of every entry, plus the activity flags
+	static std::string report(const Instance& m) {
+		std::string out; const auto& st = m.structure();
+		for (unsigned i = 0; i < st.count(); ++i) { for (const wchar_t* p = st[i].prefix; p && *p; ++p) out += std::to_string((long)*p) + ","; out += st[i].name ? st[i].name : "?"; out += st[i].isActive ? "+;" : "-;"; }
+		return out;
 	}
 	static int step(Instance& m, int k) {
 		switch (k % 4) { case 0: m.randomize(hfsm2::StateID{0}); break; case 1: m.changeTo((hfsm2::StateID)(1 + k % ((int)FSM::STATE_COUNT - 1))); break; case 2: m.utilize(hfsm2::StateID{0}); break; default: m.randomize((hfsm2::StateID)(1 + k % ((int)FSM::STATE_COUNT - 1))); break; }
@@ -80,6 +87,8 @@ static void run(const char* what, int rounds, TArgs... args) {
 			I* dst = mode == 0 ? new (mem2) I{*src} : new (mem2) I{static_cast<I&&>(*src)};
 			if (mode == 0 && (r & 1)) { for (int i = 0; i < m; ++i) if (X::step(*src, n + i) != refSeq[(size_t)(n + i)]) { V("copy|original-disturbed-by-its-copy", what); ok = false; break; } }
 			src->~I(); memset(mem, 0xDD, sizeof(I)); free(mem);
+			// the copy's structure report is its own (same text as a fresh instance in the same configuration shows), also with the source gone
+			{ I fresh{args...}; for (int i = 0; i < n; ++i) X::step(fresh, i); ++g_checks; if (ok && X::report(*dst) != X::report(fresh)) { V(mode == 0 ? "copy|structure-report-of-the-copy-differs" : "move|structure-report-of-the-moved-to-instance-differs", what); ok = false; } }
 			for (int i = 0; i < m && ok; ++i) { ++g_checks; if (X::step(*dst, n + i) != refSeq[(size_t)(n + i)]) { V(mode == 0 ? "copy|copy-does-not-continue-as-the-original-would" : "move|moved-to-instance-does-not-continue-as-the-original-would", std::string(what) + " after " + std::to_string(n) + "+" + std::to_string(i) + " steps"); ok = false; } }
 			dst->~I(); memset(mem2, 0xDD, sizeof(I)); free(mem2);
 			++g_distinct;
